@@ -2,8 +2,10 @@
 M8 (alias part) — `fsic.extensions.common.AliasMixin`, written branch for branch.
 
 * alias maps are Python dicts: association lists in insertion order whose keys are unique (`WF`);
-* `shortenStep` / `chained` / `shortenLoop` are the body, the exit test and the `while True` loop of
-  `AliasMixin.__init__` (the loop gets explicit fuel: `fuelOut` = "the constructor is still running");
+* `dropSelf` / `shortenStep` / `chained` / `shortenLoop` / `instanceAliases` are the two `k != v` filters, the
+  body, the exit test and the `for _ in range(len(aliases) + 1): … else: raise ValueError` loop of
+  `AliasMixin.__init__` (the bound is the code's own: the length of the map *after* the first filter, plus one);
+  before commit ca9bf22 the loop was `while True` with no filter in front and never ended on a self-map or cycle;
 * `resolve` is `_resolve_alias`; `aliased` wraps the container operations of `base` exactly where the four
   wrapped accessors of the mixin resolve a name (some paths resolve twice, as the code does);
 * `exportCols` is `to_dataframe(use_aliases=True)` on the column labels: pandas' `rename(columns=d)` maps every
@@ -42,23 +44,33 @@ def chained (m : AMap α) : Bool := (keys m).any fun k => decide (k ∈ vals m)
 
 inductive Shortened (α : Type) where
   | exited (rounds : Nat) (m : AMap α)   -- `break` after `rounds` substitutions
-  | fuelOut                               -- still looping when the fuel ran out
+  | exhausted                             -- the `for` ran through its whole range: the `else` clause is next
   deriving DecidableEq, Repr
 
-/-- The `while True` loop with `fuel` substitutions allowed; `r` counts the substitutions done so far. -/
+/-- `for _ in range(n): if <exit test>: break; aliases = <substitution>` — `n` passes are left, `r` counts the
+    substitutions done so far.  Every pass makes the exit test first; a pass that does not `break` substitutes. -/
 def shortenLoop : Nat → Nat → AMap α → Shortened α
-  | 0, r, m => if chained m then .fuelOut else .exited r m
-  | f + 1, r, m => if chained m then shortenLoop f (r + 1) (shortenStep m) else .exited r m
+  | 0, _, _ => .exhausted
+  | n + 1, r, m => if chained m then shortenLoop n (r + 1) (shortenStep m) else .exited r m
 
-/-- `{k: v for k, v in aliases.items() if k != v}`. -/
+/-- `{k: v for k, v in aliases.items() if k != v}` (before the loop, and once more after it). -/
 def dropSelf (m : AMap α) : AMap α := m.filter fun p => decide (p.1 ≠ p.2)
 
-/-- `self.aliases` of an instance whose class declares `ALIASES = m` (`none`: constructor did not return
-    within `fuel` rounds). -/
-def instanceAliases (fuel : Nat) (m : AMap α) : Option (AMap α) :=
-  match shortenLoop fuel 0 m with
-  | .exited _ m' => some (dropSelf m')
-  | .fuelOut => none
+/-- What the alias stage of `AliasMixin.__init__` does for a class that declares `ALIASES = m`. -/
+inductive Outcome (α : Type) where
+  | returned (aliases : AMap α)   -- `self.aliases`
+  | valueError                    -- the `else` clause of the loop
+  deriving DecidableEq, Repr
+
+/-- The loop on the pre-filtered map, bounded by the code's own `range(len(aliases) + 1)`, then `else: raise
+    ValueError` / the second filter. -/
+def shortenAll (m0 : AMap α) : Outcome α :=
+  match shortenLoop (m0.length + 1) 0 m0 with
+  | .exited _ m' => .returned (dropSelf m')
+  | .exhausted => .valueError
+
+/-- `self.aliases` of an instance whose class declares `ALIASES = m`, or the `ValueError`. -/
+def instanceAliases (m : AMap α) : Outcome α := shortenAll (dropSelf m)
 
 /-- `n`-fold `aliases.get(x, x)`: the node `n` steps along the chain of `x` (it stops at the first name that
     is not a key). -/
